@@ -19,11 +19,14 @@ import (
 	"github.com/scionproto/scion/control/beaconing"
 	"github.com/scionproto/scion/control/ifstate"
 	"github.com/scionproto/scion/pkg/addr"
+	cryptopb "github.com/scionproto/scion/pkg/proto/crypto"
 	"github.com/scionproto/scion/pkg/scrypto"
+	"github.com/scionproto/scion/pkg/scrypto/signed"
 	"github.com/scionproto/scion/pkg/scrypto/cppki"
 	seg "github.com/scionproto/scion/pkg/segment"
 	"github.com/scionproto/scion/pkg/segment/extensions/discovery"
 	sqlitebeacon "github.com/scionproto/scion/private/storage/beacon/sqlite"
+	infra "github.com/scionproto/scion/private/segment/verifier"
 	"github.com/scionproto/scion/private/storage/db"
 	sqlitetrust "github.com/scionproto/scion/private/storage/trust/sqlite"
 	"github.com/scionproto/scion/private/topology"
@@ -85,7 +88,8 @@ type AS struct {
 	TrustDB  sqlitetrust.DB
 	Pols     []polSpec // Pols[0] is always the propagation policy
 	Store    beaconStore
-	Verifier compat.Verifier
+	Verifier infra.Verifier
+	cacheOn  bool
 	Handler  beaconing.Handler
 	Ext      *recExtender
 	Orig     *beaconing.Originator
@@ -139,7 +143,22 @@ type World struct {
 	selects   int
 	// validAt[as index][signed content] = the beacon was received by that AS with every
 	// condition of the storing rule true
-	validAt map[int]map[[32]byte]bool
+	validAt  map[int]map[[32]byte]bool
+	storedAt map[int]int
+	// warm[as index][IA] = epoch in which a signature of IA last verified at that AS
+	warm    map[int]map[addr.IA]int
+	epochNo int
+}
+
+// viol reports a violation unless its signature is a listed known finding (then the run goes on).
+// It returns true when the run should stop.
+func (w *World) viol(check, sig, format string, args ...any) bool {
+	if w.r.IsKnown(sig) {
+		w.r.NoteKnown(sig)
+		return false
+	}
+	w.r.Fail(check, sig, format, args...)
+	return true
 }
 
 var worldCounter atomic.Uint64
@@ -228,7 +247,7 @@ func (w *World) genTopology() {
 		for i := 1; i < len(cs); i++ {
 			w.link(cs[i-1], cs[i], topology.Core)
 		}
-		if len(cs) > 2 && r.Chance("topo.core.ring", 1, 2) {
+		if len(cs) > 2 && (w.cfg.Rich || r.Chance("topo.core.ring", 1, 2)) {
 			w.link(cs[len(cs)-1], cs[0], topology.Core)
 		}
 	}
@@ -243,17 +262,31 @@ func (w *World) genTopology() {
 	// parent-child DAG
 	for _, isd := range w.isdNo {
 		for i, a := range nonByISD[isd] {
-			cands := append([]*AS(nil), cores[isd]...)
-			cands = append(cands, nonByISD[isd][:i]...)
+			// candidates: the ASes created just before first (deep chains), the cores last
+			var cands []*AS
+			for k := i - 1; k >= 0; k-- {
+				cands = append(cands, nonByISD[isd][k])
+			}
+			cands = append(cands, cores[isd]...)
 			np := 1 + r.Choice("topo.parents", 2)
+			if w.cfg.Rich {
+				np += r.Choice("topo.parents.more", 2)
+			}
 			for k := 0; k < np; k++ {
 				p := cands[r.Choice("topo.parent", len(cands))]
 				w.link(p, a, topology.Child) // parallel links arise when the same parent is drawn twice
 			}
 		}
 	}
-	// extra parallel link
+	// extra parallel links
+	npar := 0
 	if len(all) > 1 && r.Chance("topo.parallel", 1, 3) {
+		npar = 1
+	}
+	if len(all) > 1 && w.cfg.Rich {
+		npar += r.Choice("topo.parallel.more", 4)
+	}
+	for k := 0; k < npar; k++ {
 		a := all[r.Choice("topo.parallel.as", len(all))]
 		if len(a.Intfs) > 0 {
 			ids := sortedIDs(a.Intfs)
@@ -299,13 +332,17 @@ func (w *World) drawPolicy(a *AS, name string, t beacon.PolicyType, u beacon.Usa
 		minBest = 1
 	}
 	sp.Best = minBest + r.Choice("pol.best", 5)
+	if w.cfg.Rich {
+		sp.Best = minBest + r.Choice("pol.best.small", 3)
+	}
 	sp.Cand = 1 + r.Choice("pol.cand", 12)
 	if r.Chance("pol.cand.large", 1, 2) {
 		sp.Cand += 20
 	}
 	sp.MaxExp = uint8(255 - r.Choice("pol.maxexp", 256))
-	sp.MaxLen = 8 - r.Choice("pol.maxlen", 7)
+	sp.MaxLen = 10 - r.Choice("pol.maxlen.wide", 3)
 	if w.cfg.Policies {
+		sp.MaxLen = 9 - r.Choice("pol.maxlen", 8)
 		if r.Chance("pol.blockas", 1, 4) {
 			n := 1 + r.Choice("pol.blockas.n", 2)
 			for k := 0; k < n; k++ {
@@ -488,12 +525,14 @@ func (w *World) buildAS(a *AS) {
 	}
 	tv := trust.Verifier{Engine: provider}
 	if w.cfg.VerifierCache && r.Choice("verifier.cache", 4) != 1 {
+		a.cacheOn = true
+		r.Logf("verifier cache enabled at %s", a.IA)
 		// wired like the control service: shared cache; no janitor goroutine; the expiry window is
 		// kept away from the instants the simulation visits (see World.advance)
 		tv.Cache = gocache.New(time.Minute, 0)
 		tv.MaxCacheExpiration = cacheMax
 	}
-	a.Verifier = compat.Verifier{Verifier: tv}
+	a.Verifier = recVerifier{Verifier: compat.Verifier{Verifier: tv}, w: w, a: a}
 	a.Handler = beaconing.Handler{LocalIA: a.IA, Inserter: a.Store, Verifier: a.Verifier, Interfaces: a.IfState}
 
 	signerGen := trust.SignerGen{IA: a.IA, KeyRing: keyRing{a}, DB: a.TrustDB}
@@ -548,6 +587,40 @@ func (w *World) buildAS(a *AS) {
 	}
 }
 
+// recVerifier records, at the verifier seam of the handler, for which ASes a signature check was
+// attempted at this control service in the current clock epoch (= whose chains its verifier cache
+// may hold). Used only to classify violations (signature suffix ":cached").
+type recVerifier struct {
+	compat.Verifier
+	w *World
+	a *AS
+}
+
+func (v recVerifier) WithIA(ia addr.IA) infra.Verifier {
+	v.Verifier = v.Verifier.WithIA(ia).(compat.Verifier)
+	return v
+}
+
+func (v recVerifier) WithServer(s net.Addr) infra.Verifier {
+	v.Verifier = v.Verifier.WithServer(s).(compat.Verifier)
+	return v
+}
+
+func (v recVerifier) WithValidity(val cppki.Validity) infra.Verifier {
+	v.Verifier = v.Verifier.WithValidity(val).(compat.Verifier)
+	return v
+}
+
+func (v recVerifier) Verify(ctx context.Context, msg *cryptopb.SignedMessage, ad ...[]byte) (*signed.Message, error) {
+	m, err := v.Verifier.Verify(ctx, msg, ad...)
+	// the chain lookup (and with it the cache fill) precedes the signature check: any attempt counts
+	if v.w.warm[v.a.Idx] == nil {
+		v.w.warm[v.a.Idx] = map[addr.IA]int{}
+	}
+	v.w.warm[v.a.Idx][v.BoundIA] = v.w.epochNo
+	return m, err
+}
+
 // oneProvider serves exactly the beacons the simulator hands to one Propagator.Run.
 type oneProvider struct{ next []beacon.Beacon }
 
@@ -559,6 +632,7 @@ func newWorld(r *core.Run, cfg *Config) *World {
 	w := &World{r: r, cfg: cfg, ISDs: map[addr.ISD]*isdPKI{}, T0: time.Now(), id: worldCounter.Add(1),
 		ctx: context.Background()}
 	w.epochStart = w.T0
+	w.warm = map[int]map[addr.IA]int{}
 	w.net = &Network{w: w}
 	w.genTopology()
 	w.buildPKI()
